@@ -19,7 +19,9 @@ NOT_DECIDED = [
     "the numeric thresholds and the exact value a literal denotes (value-level)",
 ]
 ASSUMPTIONS = ["precedence ranks as stated in the property text: * / > MOD > + - > relational > "
-               "NOT > AND > OR, unary minus above all"]
+               "NOT > AND > OR, unary minus above all",
+               "C10.R4: str::parse::<f64> does not fail on a non-empty run of ASCII digits (std float "
+               "grammar); an error exit of process_dec conditioned only on that parse is not counted"]
 
 EXPR = "rusty_parser::expr::types::Expression"
 OP = "rusty_parser::core::operator::Operator"
@@ -115,8 +117,19 @@ def _literal_shapes(eng, fn, args):
     return sorted(out)
 
 
+def _float_parse_total(eng, t, args):
+    """`digits.parse::<f64>()` is modelled as Ok: the token handed to process_dec is a non-empty run
+    of ASCII digits (the lexer's digit class, C09.R6), which std's f64 grammar accepts whatever its
+    length (it saturates to infinity, it does not fail)."""
+    k = (t.get("f") or {}).get("k") or {}
+    if k.get("fnpath") == "core::str::<impl str>::parse" and k.get("gargs") == ["f64"]:
+        return [eng.make("core::result::Result", "Ok", {0: tf.TOP})]
+    return None
+
+
 def r4_decimal_total(ctx, eng, rule="C10.R4"):
     prog = ctx.prog
+    eng = tf.Engine(prog, intrinsics=_float_parse_total)
     dec = [f for f in prog.fns.values() if f.name == "process_dec" and "integer_or_long_literal" in f.id]
     if len(dec) != 1:
         raise CheckError("anchor process_dec: %d matches" % len(dec))
